@@ -631,7 +631,34 @@ class Frame:
 
     # ---------------------------------------------------------------- places
     def root_of(self, place):
-        """(root, remaining projections) after normalising reference temporaries."""
+        """(root, remaining projections) after normalising reference temporaries and following references that are
+        stored *inside* values (a closure environment holding `&mut &mut T`, a struct with a reference field)."""
+        root, proj = self._root_of0(place)
+        for _ in range(6):
+            v = self.store.get(root)
+            hit = None
+            for i, e in enumerate(proj):
+                if v is None:
+                    break
+                if e[0] == 'deref':
+                    if isinstance(v, Ref):
+                        hit = (v, i)
+                        break
+                    continue
+                if isinstance(v, Agg) and e[0] == 'f' and e[1] < len(v.items):
+                    v = v.items[e[1]]
+                    continue
+                if isinstance(v, Agg) and e[0] == 'ci' and not e[3] and e[1] < len(v.items):
+                    v = v.items[e[1]]
+                    continue
+                break
+            if hit is None:
+                break
+            r, i = hit
+            root, proj = r.root, list(r.proj) + list(proj[i + 1:])
+        return root, proj
+
+    def _root_of0(self, place):
         p = self.res.norm_place(place)
         proj = list(p['p'])
         l = p['l']
@@ -1718,19 +1745,24 @@ class Interp:
         back = []
         for k, v in enumerate(captures.items):
             if isinstance(v, Ref):
-                key = ('up', k, len(fr.store))
+                # a captured reference, possibly to a reference (`&mut &mut T` when a `&mut` parameter is captured by
+                # unique borrow): every level keeps a place of its own in the closure's frame, the innermost one is
+                # written back to the caller's place
+                chain = [v]
                 val = self._ref_value(fr, v)
                 for _ in range(8):
-                    # a reference to a reference: follow it inside the caller's frame
                     if not isinstance(val, Ref):
                         break
-                    v = val
-                    val = self._ref_value(fr, v)
+                    chain.append(val)
+                    val = self._ref_value(fr, val)
                 if isinstance(val, Ref):
                     val = TOP
-                extra[key] = val
-                caps.append(Ref(key, []))
-                back.append((key, v))
+                keys = [('up', k, len(fr.store), lvl) for lvl in range(len(chain))]
+                for lvl in range(len(chain) - 1):
+                    extra[keys[lvl]] = Ref(keys[lvl + 1], [])
+                extra[keys[-1]] = val
+                caps.append(Ref(keys[0], []))
+                back.append((keys[-1], chain[-1]))
             else:
                 caps.append(v)
         caps = Agg(caps, captures.kind)
